@@ -186,6 +186,11 @@ CTerminationPayout(pre, e) ==
                  Gain(MemberOf(pre, t.from), MemberOf(e.life, t.from), <<>>)
           [] OTHER -> TRUE
 
+\* a new epoch starts with a clean slate: no flips, no ceremony transactions on record, no penalty left
+CEpochCleansSlate(e) ==
+    HasFlag(e.flags, ValidationFinishedFlag) =>
+        \A m \in Members(e.life) : e.life.cast[m].vtx = <<>> /\ e.life.cast[m].nfl = 0 /\ ~e.life.cast[m].pens /\ ~e.life.cast[m].pend
+
 \* the identity-update block that applies an offline penalty turns the penalised identity offline
 CPenaltyTurnsOffline(pre, e) ==
     \A m \in Members(pre) :
@@ -205,6 +210,7 @@ Clauses(pre, e) ==
     \cup If(CNamedEffect(pre, e), "NamedEffect")
     \cup If(CPenaltyTurnsOffline(pre, e), "PenaltyTurnsOffline")
     \cup If(CTerminationPayout(pre, e), "TerminationPayout")
+    \cup If(CEpochCleansSlate(e), "EpochCleansSlate")
 
 (* ---------------------------------------------------------------------------------------------------------- *)
 (* (b) drift                                                                                                   *)
@@ -219,7 +225,7 @@ Predicted(s0, e, included) ==
             IF included THEN (IF upd /\ st.op \notin Flushers THEN FlushOf(TxEff(s0, st.op)) ELSE TxEff(s0, st.op))
             ELSE (IF upd THEN FlushOf(s0) ELSE s0)
       [] st.kind = "epoch" /\ HasFlag(e.flags, ValidationFinishedFlag) -> EpochEff(s0, o)
-      [] st.kind = "final" /\ st.op = "NextPeriod" -> (IF upd THEN FlushOf(StartPeriod(s0)) ELSE StartPeriod(s0))
+      [] st.kind \in {"final", "period"} /\ st.op \in {"NextPeriod", "Ceremony"} -> (IF upd THEN FlushOf(StartPeriod(s0)) ELSE StartPeriod(s0))
       [] st.kind = "final" /\ st.op = "Penalty" -> [s0 EXCEPT !.pen = "delayed"]
       [] OTHER -> IF upd THEN FlushOf(s0) ELSE s0
 
